@@ -1,5 +1,6 @@
 import StepupModel.K.Scheduler
 import StepupModel.Lemmas.K
+import StepupModel.Lemmas.MetaAfter
 /-!
 # C10  Dispatch is exact: nothing ineligible starts, nothing eligible is left
 
@@ -8,8 +9,10 @@ The dispatch decision of the model (`K/Scheduler.lean`) reads the regenerated tr
 their specification for the complete finite domain, (2) show that what `popNext` dispatches
 satisfies the specification on the cached columns and that `none` is returned only when no step
 does, (3) show that `_update_meta_ready` makes the cached `_ready` equal to its definition, and
-(4) the defer cap.  The agreement of the cached `_safe`/`_implied_need` columns with their
-from-scratch definitions after any history is decided by the oracle on the real database
+(4) the defer cap, (5) the worklist of `_update_meta_after` computes the unique solution of the
+local equations of `_implied_need`/`_tail_time`, equals the from-scratch refresh and terminates in
+every reachable database, under the flag discipline `CacheInvAfter`.  That discipline (and the
+agreement of the cached `_safe` column) after any history is decided by the oracle on the real database
 (`harness/koracles.py`), not yet by a theorem (DESIGN section 9/C10, T2).
 -/
 namespace StepupModel.Props.C10
@@ -181,6 +184,49 @@ theorem defer_cap (cap k : Nat) (h : cap ≤ k) : deferOutcome cap k = .failed :
   unfold deferOutcome
   have : ¬ (k + 1 ≤ cap) := by omega
   simp [this]
+
+/-! ## The cached `_implied_need` / `_tail_time` agree with their definition after a refresh -/
+
+open StepupModel.K.MetaAfter in
+/-- Worklist correctness of `_update_meta_after`.  Flag discipline (`CacheInvAfter`): every attached
+step that is not flagged `_check_after` satisfies its local equation (cached pair = value
+recomputed from its declared need, its outputs versus the targets, and the cached pairs of the
+attached consumer steps).  Then after the refresh EVERY attached step satisfies its local equation,
+all flags are cleared and nothing but the three cached columns changed. -/
+theorem update_meta_after_correct (s s' : KState) (cfg : KConfig) (hk : KeysUnique s)
+    (hc : CacheInvAfter s cfg) (h : s.updateMetaAfter cfg = .ok s') :
+    AfterConsistent s' cfg ∧ (∀ n ∈ s'.nodes, n.key.kind = .step → n.checkAfter = false) ∧ AfterFrame s s' :=
+  updateMetaAfter_correct s s' cfg hk hc h
+
+open StepupModel.K.MetaAfter in
+/-- The local equations determine the cached columns: two tables that differ only in the cached
+columns and both satisfy all local equations agree on every attached step.  So "the cache agrees
+with its definition" is exactly `AfterConsistent`. -/
+theorem cached_need_is_determined (s t : KState) (cfg : KConfig) (hk : KeysUnique s)
+    (hf : AfterFrame s t) (hs : AfterConsistent s cfg) (ht : AfterConsistent t cfg) :
+    ∀ n ∈ s.nodes, ∀ n' ∈ t.nodes, n'.key = n.key → n.key.kind = .step → n.detached = false →
+      n'.impliedNeed = n.impliedNeed ∧ n'.tail = n.tail :=
+  afterConsistent_unique_general s t cfg hk hf hs ht
+
+open StepupModel.K.MetaAfter in
+/-- The incremental refresh equals the refresh from scratch (every step flagged), as an equation
+of states, on an acyclic table that obeys the flag discipline. -/
+theorem incremental_refresh_equals_from_scratch (s s' : KState) (cfg : KConfig) (hac : Acyclic s)
+    (hk : KeysUnique s) (hc : CacheInvAfter s cfg) (h : s.updateMetaAfter cfg = .ok s') :
+    recomputeAfter s cfg = .ok s' :=
+  updateMetaAfter_eq_recomputeAfter s s' cfg hac hk hc h
+
+open StepupModel.K.MetaAfter in
+/-- `_update_meta_after` terminates (never reports a hang) in every reachable database: the
+dependency graph of a reachable database is acyclic (C09), and the work set of round r only
+contains steps at the start of a dependency chain of length >= 2r. -/
+theorem update_meta_after_terminates_after_every_history (h : List (KConfig × Req)) (cfg : KConfig) :
+    ∃ s', (KState.init.run h).updateMetaAfter cfg = .ok s' :=
+  updateMetaAfter_reachable_no_hang h cfg
+
+/-! The flag discipline `CacheInvAfter` itself is NOT a theorem over all histories: it is what the
+defects F14/F20 violated.  It is evaluated on the real database by the cache oracle after every
+generated request (`koracles.cache_invariants`). -/
 
 /-! Non-vacuity -/
 example : dispatchSpec (.pending, true, false, false, false, .default, true) = true := by decide
